@@ -401,3 +401,26 @@ Definition reply_ok (w : wire) : Prop :=
 
 (* the k-th platform serial *)
 Definition serial_no (k : nat) : N := N.of_nat k mod 65536.
+
+(* what the reader goroutine has to report for a delivered message *)
+Definition read_report (d : dmsg) : list obs :=
+  if negb (std_registered (m_id (d_m d))) then [ONotSupported d]
+  else if handled d then [OReadH d; OReadE d] else [].
+
+(* a write and the write callbacks that have to follow it: both, with the bytes actually sent, for
+   a frame caused by a complete terminal message; none for a platform command (C12) *)
+Definition wire_report (w : wire) : list obs :=
+  OWrite w ::
+  match w_kind w, w_src w with
+  | WCmd, _ => []
+  | _, None => []
+  | _, Some d => if has_complete d then [OWriteH d (wire_bytes w); OWriteE d (wire_bytes w)] else []
+  end.
+
+(* schedules in which the writer never hands a message to a waiting SendActiveMessage caller (C12) *)
+Definition no_absorb (s : list move) : bool :=
+  forallb (fun mv => match mv with MAbsorb => false | _ => true end) s.
+
+(* the reader has nothing left to report *)
+Definition reader_done (c : conn) : bool :=
+  match c_pending c, c_hand c with [], None => true | _, _ => false end.
